@@ -113,7 +113,7 @@ def nextafter(x, y):
 def encode_floats(fmt, rng, quick):
     """doubles handed to sp/dp_to_ieee754: representable values, exact ties between neighbours, just above/below a tie,
     around overflow and underflow, double subnormals, extremes"""
-    xs = [0.0, -0.0, 1.0, -1.0, 0.1, -0.1, 3.0, 5e-324, -5e-324, 2.2250738585072014e-308, 1.7976931348623157e308, -1.7976931348623157e308,
+    xs = [0.0, -0.0, 1.0, -1.0, 2.0, -2.0, 4.0, 0.5, 0.25, 8.0, 2.0 ** 52, 2.0 ** 53, 2.0 ** -3, 0.1, -0.1, 3.0, 5e-324, -5e-324, 2.2250738585072014e-308, 1.7976931348623157e308, -1.7976931348623157e308,
           math.inf, -math.inf, math.nan, 2.0 ** -1074, 2.0 ** -1022, 2.0 ** 1023, 1.9999999999999998, 4.9406564584124654e-324 * 3]
     if fmt == 'dp':
         return xs
@@ -130,7 +130,8 @@ def encode_floats(fmt, rng, quick):
             mid = (a + b) / 2
             for x in (a, mid, nextafter(mid, math.inf), nextafter(mid, -math.inf), a + (b - a) / 4, a + 3 * (b - a) / 4):
                 xs.append(x); xs.append(-x)
-    xs += [2.0 ** -150, nextafter(2.0 ** -150, 1.0), nextafter(2.0 ** -150, 0.0), 2.0 ** -151, 1.5 * 2.0 ** -149, 2.0 ** -149, 3.0 * 2.0 ** -150,
+    xs += [1.5 * 2.0 ** 128, -1.25 * 2.0 ** 128, nextafter(2.0 ** 129, 0.0), 2.0 ** 129, 1.0000001 * 2.0 ** 128,
+           2.0 ** -150, nextafter(2.0 ** -150, 1.0), nextafter(2.0 ** -150, 0.0), 2.0 ** -151, 1.5 * 2.0 ** -149, 2.0 ** -149, 3.0 * 2.0 ** -150,
            2.0 ** 128, nextafter(2.0 ** 128, 0.0), 2.0 ** 127 * (2 - 2.0 ** -24), nextafter(2.0 ** 127 * (2 - 2.0 ** -24), 0.0), 2.0 ** 200, 1e39, -1e39]
     for _ in range(300 if quick else 20000):
         xs.append(rng.uniform(-1, 1) * 10.0 ** rng.randint(-46, 39))
